@@ -38,6 +38,8 @@ type FnCtx struct {
 	obls      []*Obligation
 	heapNames map[string]Sort
 	subFuncs  map[string]int
+	subDone   map[string]bool
+	subIDs    map[string]int
 	funcRefs  map[string]bool
 	typeTags  map[string]int
 	strLits   map[string]Term
@@ -74,6 +76,15 @@ type FnCtx struct {
 	atomicLoads []Term
 	atomicsHavocked bool
 	pinned    bool
+	lockCount map[string]int
+	og        *ogSpec
+	decided   []*OblResult
+	doneChans []Term
+	closedHavocs [][2]Term
+	pendingShared bool
+	curFrame  *Frame
+	curInstr  ssa.Instruction
+	selectIdx map[*ssa.Select]Term
 	guards    []guardSpec
 	guardObls map[string][]Term
 }
@@ -83,6 +94,7 @@ type FnCtx struct {
 type guardSpec struct {
 	Obj, Mu Term
 	Exempt  map[string]bool
+	ObjType types.Type
 }
 
 type Frame struct {
@@ -768,6 +780,7 @@ func (c *FnCtx) storePtr(fr *Frame, st *State, p ssa.Value, v SV) {
 }
 
 func (c *FnCtx) execInstr(fr *Frame, st *State, instr ssa.Instruction) {
+	c.curFrame, c.curInstr = fr, instr
 	switch x := instr.(type) {
 	case *ssa.DebugRef:
 		return
